@@ -1443,6 +1443,28 @@ pub fn run(args: &Args, out: &mut Out, rng: &mut Rng) {
 		let tiles = gen_tiles(rng);
 		emit_reuse(out, &rt, &dir, c, *rng.pick(&comps), &a_long, &b, &tiles);
 	}
+	// the same path written twice with documents of EQUAL serialised length (one character of a string value or one
+	// digit of a number changed) and of length ±1: the second document must come back (a writer that "resumes" by
+	// skipping files of the expected size keeps the first one)
+	for (k, c) in CONTAINERS.iter().enumerate() {
+		let word = super::gen_string(rng).chars().filter(|c| c.is_ascii_alphanumeric()).collect::<String>() + "pad";
+		let a = format!(r#"{{"description":"{word}x","maxzoom":12,"name":"first","attribution":"é{k}"}}"#);
+		let variants = [
+			format!(r#"{{"description":"{word}y","maxzoom":12,"name":"first","attribution":"é{k}"}}"#), // one character
+			format!(r#"{{"description":"{word}x","maxzoom":13,"name":"first","attribution":"é{k}"}}"#), // one digit
+			format!(r#"{{"description":"{word}x","maxzoom":12,"name":"tsrif","attribution":"é{k}"}}"#), // permuted value
+			format!(r#"{{"description":"{word}xx","maxzoom":12,"name":"first","attribution":"é{k}"}}"#), // +1
+			format!(r#"{{"description":"{word}","maxzoom":12,"name":"first","attribution":"é{k}"}}"#),  // −1
+			format!(r#"{{"description":"{word}x","maxzoom":1,"name":"first1","attribution":"é{k}"}}"#), // same length, two fields
+		];
+		let tiles = vec![(2u8, 1u32, 1u32), (3, 2, 5)];
+		for b in &variants {
+			for comp in [TileCompression::Uncompressed, TileCompression::Gzip] {
+				out.count("reuse_same_length");
+				emit_reuse(out, &rt, &dir, c, comp, &a, b, &tiles);
+			}
+		}
+	}
 	for i in 0..args.n(40, 400) {
 		let c = CONTAINERS[i % 4];
 		let doc = gen_accepted_doc(out, rng);
